@@ -2,6 +2,7 @@
 #![allow(dead_code)]
 mod util;
 mod c04;
+mod c09;
 mod c14;
 mod c22;
 mod c27;
@@ -18,6 +19,7 @@ fn main() {
     let args = util::Args::parse(&argv[1..]);
     match argv[0].as_str() {
         "c04" => c04::main(&args),
+        "c09" => c09::main(&args),
         "c14" => c14::main(&args),
         "c22" => c22::main(&args),
         "c27" => c27::main(&args),
